@@ -6,6 +6,7 @@ CONSTANTS
   MaxCrashes = 0
   MaxRuns = 2
   Tolerated <- KnownRecovery
+  FnOut = FALSE
   Gen = "off"
 PROPERTIES Terminates
 CHECK_DEADLOCK TRUE
